@@ -103,7 +103,16 @@ C18CodeJob ==
   /\ Report("C18_OutOfRangeRefused", {j \in DOMAIN Job.pr : Job.pr[j].k # "refuse"})
   /\ Report("C18_InRangeAccepted", {j \in DOMAIN Job.pa : Job.pa[j].k # "ok"})
 
-Run == CASE Job.kind = "c17" -> C17Job
+(* =========================== C03 (function level) ======================= *)
+(* the okta with both buffers never decreases with the count, is 0 up to MAX_HITS_OKTA0 and 8 once at most MAX_HOLES_OKTA8 are missing *)
+OktaMono(m, H0, H8) == \A n \in 0..(m - 1) : Okta(n, m, H0, H8) <= Okta(n + 1, m, H0, H8)
+OktaSetMono(m, H0, H8) == \A n \in 0..(m - 1) : \A a \in OktaSet(n, m, H0, H8), b \in OktaSet(n + 1, m, H0, H8) : a <= b
+C03MonoJob ==
+  /\ Report("C03_ModelMonotone", {m \in LO..HI : \E H0 \in 0..6, H8 \in 0..6 : ~(OktaMono(m, H0, H8) /\ OktaSetMono(m, H0, H8))})
+  /\ Report("C03_ModelInSet", {m \in LO..HI : \E H0 \in 0..6, H8 \in 0..6, n \in 0..m : Okta(n, m, H0, H8) \notin OktaSet(n, m, H0, H8)})
+
+Run == CASE Job.kind = "c03mono" -> C03MonoJob
+         [] Job.kind = "c17" -> C17Job
          [] Job.kind = "c18perc" -> C18PercJob
          [] Job.kind = "c18height" -> C18HeightJob
          [] Job.kind = "c18code" -> C18CodeJob
